@@ -17,7 +17,7 @@ import (
 // C17 — payload accumulator.
 
 type OpC17 struct {
-	Kind string  `json:"op"` // write, bytes, packets, reset
+	Kind string  `json:"op"` // write, write-same (the previous packet again, byte for byte), bytes, packets, reset
 	Pkt  ref.Hex `json:"pkt,omitempty"`
 }
 
@@ -42,6 +42,14 @@ func c17Pred(kind string, k int) func([]byte) (bool, error) {
 		}
 	case "always":
 		return func(b []byte) (bool, error) { return true, nil }
+	case "done-and-err-at":
+		// complete and failing at once: the error must not be lost
+		return func(b []byte) (bool, error) {
+			if len(b) >= k {
+				return true, errC17Pred
+			}
+			return false, nil
+		}
 	default:
 		return func(b []byte) (bool, error) { return false, nil }
 	}
@@ -81,7 +89,7 @@ func genC17Packet(t *rapid.T) []byte {
 
 func genC17(t *rapid.T) CaseC17 {
 	c := CaseC17{}
-	c.Pred = rapid.SampledFrom([]string{"done-at", "done-at", "err-at", "never", "always"}).Draw(t, "pred")
+	c.Pred = rapid.SampledFrom([]string{"done-at", "done-at", "err-at", "never", "always", "done-and-err-at"}).Draw(t, "pred")
 	c.K = rapid.SampledFrom([]int{0, 1, 10, 184, 185, 300, 368, 500, 1000}).Draw(t, "k")
 	n := rapid.IntRange(1, 30).Draw(t, "steps")
 	for i := 0; i < n; i++ {
@@ -92,6 +100,8 @@ func genC17(t *rapid.T) CaseC17 {
 			c.Ops = append(c.Ops, OpC17{Kind: "packets"})
 		case 2:
 			c.Ops = append(c.Ops, OpC17{Kind: "reset"})
+		case 3:
+			c.Ops = append(c.Ops, OpC17{Kind: "write-same"})
 		default:
 			c.Ops = append(c.Ops, OpC17{Kind: "write", Pkt: genC17Packet(t)})
 		}
@@ -111,7 +121,8 @@ func checkC17(c CaseC17, x *hx.Ctx) *hx.Failure {
 	acc := packet.NewAccumulator(pred)
 	var shadow packet.Accumulator // a fresh accumulator started at the last Reset, driven in lockstep
 	m := &c17Model{}
-	var nRestart, nAfterDone, nPredErr, nReset, nNoPayload int
+	var nRestart, nAfterDone, nPredErr, nReset, nNoPayload, nSame int
+	var lastPkt []byte
 	unitStarts := 0
 
 	observe := func(step int, where string) *hx.Failure {
@@ -157,9 +168,18 @@ func checkC17(c CaseC17, x *hx.Ctx) *hx.Failure {
 			acc.Reset()
 			shadow = packet.NewAccumulator(pred)
 			m = &c17Model{}
-		case "write":
+		case "write", "write-same":
 			var b [188]byte
-			copy(b[:], o.Pkt)
+			if o.Kind == "write-same" {
+				if lastPkt == nil {
+					continue
+				}
+				copy(b[:], lastPkt)
+				nSame++
+			} else {
+				copy(b[:], o.Pkt)
+			}
+			lastPkt = clone(b[:])
 			rp, ok := ref.ParsePacket(b)
 			if !ok {
 				return hx.Failf("bad-case", "case packets must be well-formed")
@@ -215,7 +235,13 @@ func checkC17(c CaseC17, x *hx.Ctx) *hx.Failure {
 				case perr != nil:
 					nPredErr++
 					if err != perr {
-						return hx.Failf("predicate-error-lost", "%s: the predicate failed but WritePacket returned %v", desc, err)
+						return hx.Failf("predicate-error-lost", "%s: the predicate failed (done=%v) but WritePacket returned %v", desc, done, err)
+					}
+					if done {
+						// complete and failing at once: what the accumulator does afterwards is not fixed by the statement
+						x.NonTrivial()
+						x.Label("predicate-done-and-error")
+						return nil
 					}
 				case done:
 					m.state = 2
@@ -243,6 +269,7 @@ func checkC17(c CaseC17, x *hx.Ctx) *hx.Failure {
 	x.LabelIf(nAfterDone > 0, "write-after-done")
 	x.LabelIf(nPredErr > 0, "predicate-error")
 	x.LabelIf(nReset > 0, "reset")
+	x.LabelIf(nSame > 0, "same-packet-twice-in-a-row")
 	x.LabelIf(nNoPayload > 0, "payload-less-packet-after-start")
 	x.LabelIf(unitStarts == 0, "never-started")
 	return nil
